@@ -73,11 +73,12 @@ CLAIMS = {
            'torch.save/load (pickle) and torch state_dicts are modelled as exact.'),
  },
  'C20': {
-  'technique': 'Coq proofs over R of the update rule, count non-interference and the sigma-split identity on expressions regenerated from adaclipoptimizer.py; recorded-noise runs on the real optimizer',
+  'technique': 'Coq proofs over R of the update rule, count non-interference and the sigma-split identity on expressions regenerated from adaclipoptimizer.py and adaptive_clipping_utils.py; recorded-noise runs on the real optimizer and the real ghost adaptive engine',
   'text': ('PARTIAL. Proved for the expressions generated from AdaClipDPOptimizer (update_max_grad_norm, the noise-multiplier formula of __init__): the new norm is '
            'clamp(C exp(-lr (noisy_count/sample_size - gamma)), [min,max]); it depends on the raw count only through the noisy count; sigma_g^-2 + (2 sigma_b)^-2 = sigma^-2. '
            'add_noise / clip_and_accumulate counters / zero_grad and the ghost adaptive engine\'s rule are pinned or regenerated into the optimizer state machine (counters survive skipped '
-           'physical steps, no update on skipped steps). Real AdaClipDPOptimizer steps with recorded torch.normal draws are compared with the rule. The accounting half is FALSE of the code '
+           'physical steps, no update on skipped steps). Real AdaClipDPOptimizer steps with recorded torch.normal draws are compared with the rule, and so are steps of the real ghost adaptive engine (PrivacyEngineAdaptiveClipping) '
+           'on loaders with a ragged last batch: count-noise std = realised batch/20, gradient multiplier for the sigma_b actually used, noise std = multiplier x updated norm. The accounting half is FALSE of the code at both sites '
            '(theorem C20_sigma_g_exceeds_nominal, Findings/C20.v): the accountant is charged sigma_g > sigma -- recorded as a known finding. The privacy reading of the identity (Andrew et al. 2021) is cited.'),
  },
  'C07': {
@@ -141,9 +142,9 @@ CLAIMS = {
   'technique': 'Coq simulation proof on generated optimizer + sampler code (array_split partition, split run refines unsplit run); engine-level differential runs',
   'text': ('array_split_partition and physical_batches_bounded (every physical batch non-empty, <= max, concatenation = logical batch) for all batch sizes and max sizes; '
            'the sampler body generated from BatchSplittingSampler.__iter__ emits skip=True before all but the last physical batch (and one empty batch with skip=False for '
-           'an empty logical batch); bmm_refines_unsplit: for every split, every hyper-parameter value, every accountant and the flat / per-layer / adaptive-loop optimizers, '
+           'an empty logical batch); bmm_refines_unsplit: for every split, every hyper-parameter value, every accountant and every optimizer variant (flat, per-layer, adaptive loop and ghost clipping, the latter with the two-pass backward), '
            'the split run and the unsplit run have the same noise draws, accountant records, released (sample, clipping norm) lists, history and noise-stream position. '
-           'PARTIAL: the ghost optimizer and prefetch interleavings are covered by the correspondence / differential runs only (real engine with vs without the manager: '
+           'PARTIAL: prefetch interleavings (signals queued ahead by DataLoader workers) and the tie of the ghost backward model to the code are covered by the differential runs (real engine with vs without the manager: '
            'parameter trajectories, torch.normal log, history).'),
  },
  'C11': {
